@@ -29,7 +29,9 @@
 (* consecutive polls are at most MaxGap apart is a behaviour of this          *)
 (* specification (MaxGap = the driver's pause between polls, 0.2 s, plus one  *)
 (* query round trip, plus one tick of discretisation slack).  Each poll sees  *)
-(* an arbitrary snapshot: the cluster changes as it likes between polls.      *)
+(* an arbitrary snapshot: the cluster changes as it likes between polls; or   *)
+(* it sees nothing at all - the queries time out (PollLost) - which is no      *)
+(* evidence of agreement: a wait whose every poll was lost reports "no".       *)
 (* Time is counted in ticks (the harness uses 0.05 s) since the wait began.   *)
 (*                                                                            *)
 (* A snapshot is what one poll sees: the schema version the control node      *)
@@ -60,7 +62,8 @@ Agrees(s) == Cardinality(LiveVersions(s)) = 1
 
 VARIABLES wait, mode,   \* configuration
           polled,       \* at least one poll was made
-          last,         \* instant of the last poll
+          last,         \* instant of the last poll (of its end when it got no answer)
+          lastLost,     \* the last poll got no answer
           snap,         \* what the last poll saw
           sawUniform,   \* some poll saw a uniform snapshot (history)
           status,       \* "polling" | "agreed" (a uniform snapshot was just polled) | "done"
@@ -68,13 +71,13 @@ VARIABLES wait, mode,   \* configuration
           endAt,        \* instant at which the outcome was reported
           future,       \* "n/a" | "unset" | "yes" | "no": ResponseFuture.is_schema_agreed
           act
-vars == <<wait, mode, polled, last, snap, sawUniform, status, verdict, endAt, future, act>>
+vars == <<wait, mode, polled, last, lastLost, snap, sawUniform, status, verdict, endAt, future, act>>
 
 Horizon == CHOOSE m \in {w + MaxGap : w \in Waits} : \A w \in Waits : w + MaxGap <= m
 
 Init == /\ wait \in Waits
         /\ mode \in Modes
-        /\ polled = FALSE /\ last = 0
+        /\ polled = FALSE /\ last = 0 /\ lastLost = FALSE
         /\ snap = NoSnap
         /\ sawUniform = FALSE
         /\ status = "polling"
@@ -82,13 +85,29 @@ Init == /\ wait \in Waits
         /\ future = IF mode = "direct" THEN "n/a" ELSE "unset"
         /\ act = [name |-> "Init"]
 
+EarliestPoll == IF ~polled THEN 0 ELSE IF lastLost THEN last ELSE last + 1
+
+\* a poll that sees NOTHING: the schema-version queries sent at instant `at` are not answered and the request times
+\* out at instant `end` (OperationTimedOut inside the loop, which goes on).  It tells nothing about the versions.
+PollLost(at, end) ==
+    /\ status = "polling"
+    /\ at >= EarliestPoll
+    /\ at <= last + MaxGap
+    /\ end > at
+    /\ polled' = TRUE
+    /\ last' = end
+    /\ lastLost' = TRUE
+    /\ act' = [name |-> "PollLost", at |-> at, end |-> end]
+    /\ UNCHANGED <<wait, mode, snap, sawUniform, status, verdict, endAt, future>>
+
 \* one round trip of the two queries at instant `at`, seeing snapshot s
 Poll(s, at) ==
     /\ status = "polling"
-    /\ at >= (IF polled THEN last + 1 ELSE 0)
+    /\ at >= EarliestPoll
     /\ at <= last + MaxGap                       \* keeps polling: no gap longer than MaxGap (from the start, too)
     /\ polled' = TRUE
     /\ last' = at
+    /\ lastLost' = FALSE
     /\ snap' = s
     /\ sawUniform' = (sawUniform \/ Agrees(s))
     /\ status' = IF Agrees(s) THEN "agreed" ELSE "polling"
@@ -108,7 +127,7 @@ Finish(v, at) ==
     /\ endAt' = at
     /\ future' = IF mode = "direct" THEN "n/a" ELSE v             \* (c)
     /\ act' = [name |-> "Finish", v |-> v, at |-> at]
-    /\ UNCHANGED <<wait, mode, polled, last, snap, sawUniform>>
+    /\ UNCHANGED <<wait, mode, polled, last, lastLost, snap, sawUniform>>
 
 \* an exception escapes from wait_for_schema_agreement while it is polling (the poll in flight is never answered);
 \* "direct": it reaches the caller; "ddl_*": refresh_schema_and_set_result logs it, schedules a background refresh and
@@ -122,9 +141,10 @@ Abort(fv, at) ==
     /\ endAt' = at
     /\ future' = fv
     /\ act' = [name |-> "Abort", v |-> fv, at |-> at]
-    /\ UNCHANGED <<wait, mode, polled, last, snap, sawUniform>>
+    /\ UNCHANGED <<wait, mode, polled, last, lastLost, snap, sawUniform>>
 
 Next == \/ \E s \in Snaps, at \in 0..Horizon : Poll(s, at)
+        \/ \E at \in 0..Horizon, end \in 1..Horizon : PollLost(at, end)
         \/ \E v \in {"yes", "no"}, at \in 0..Horizon : Finish(v, at)
         \/ \E fv \in {"n/a", "no"}, at \in 0..Horizon : Abort(fv, at)
 Spec == Init /\ [][Next]_vars /\ WF_vars(Next)
@@ -135,7 +155,7 @@ TypeOK == /\ status \in {"polling", "agreed", "done"}
           /\ future \in {"n/a", "unset", "yes", "no"}
 
 \* (a) agreement is reported exactly when the live versions form a single version
-AgreementOnlyWhenUniform == verdict = "yes" => polled /\ Agrees(snap)
+AgreementOnlyWhenUniform == verdict = "yes" => polled /\ snap # NoSnap /\ Agrees(snap)
 UniformIsReported == sawUniform => status \in {"agreed", "done"} /\ verdict # "no" /\ Agrees(snap)
 
 \* (b) otherwise it keeps polling until the configured wait has elapsed
@@ -156,10 +176,11 @@ Terminates == <>(status = "done")
 Witness_AgreeLater     == ~(verdict = "yes" /\ last >= 2)
 Witness_DownIgnored    == ~(verdict = "yes" /\ \E p \in KPeers : snap.st[p] = "down" /\ snap.pv[p] # snap.local)
 Witness_UnknownIgnored == ~(verdict = "yes" /\ \E p \in UPeers : snap.pv[p] # snap.local)
-Witness_NoneCounts     == ~(polled /\ status = "polling" /\ \A p \in KPeers : snap.st[p] = "up" => snap.pv[p] = snap.local)
+Witness_NoneCounts     == ~(polled /\ snap # NoSnap /\ status = "polling" /\ \A p \in KPeers : snap.st[p] = "up" => snap.pv[p] = snap.local)
 Witness_Timeout        == ~(verdict = "no")
 Witness_DenseSchedule  == ~(verdict = "no" /\ endAt = wait)
 Witness_FutureYesNoMeta == ~(future = "yes" /\ mode = "ddl_nometa")
+Witness_NothingSeen     == ~(verdict = "no" /\ snap = NoSnap)        \* every poll of the wait was lost
 Witness_AbortAfterPolls == ~(verdict = "raised" /\ polled /\ mode # "direct")
 
 ASSUME TLCSet(2, {})
@@ -170,6 +191,7 @@ WitnessesHere == (IF ~Witness_AgreeLater THEN {"Witness_AgreeLater"} ELSE {})
             \cup (IF ~Witness_Timeout THEN {"Witness_Timeout"} ELSE {})
             \cup (IF ~Witness_DenseSchedule THEN {"Witness_DenseSchedule"} ELSE {})
             \cup (IF ~Witness_FutureYesNoMeta THEN {"Witness_FutureYesNoMeta"} ELSE {})
+            \cup (IF ~Witness_NothingSeen THEN {"Witness_NothingSeen"} ELSE {})
             \cup (IF ~Witness_AbortAfterPolls THEN {"Witness_AbortAfterPolls"} ELSE {})
 RecordWitnesses == TLCSet(2, TLCGet(2) \cup WitnessesHere)
 PrintWitnesses == PrintT(<<"WITNESSES", TLCGet(2)>>)
